@@ -90,7 +90,15 @@ pub async fn main() -> Result<(), Box<dyn std::error::Error>> {
             let mut buf = [0u8; 2048];
             let mut bytes_read = 0;
             loop {
-                let n = tcp_stream.read(&mut buf[bytes_read..]).await?;
+                let n = match tcp_stream.read(&mut buf[bytes_read..]).await {
+                    Ok(n) => n,
+                    Err(e) => {
+                        // One broken connection (e.g. a reset) is no reason
+                        // to stop serving the others.
+                        tracing::warn!("Metrics connection failed: {e}");
+                        continue 'accept;
+                    }
+                };
                 if n == 0 {
                     // The client closed the connection before its request was
                     // complete; every further read would return 0 again.
@@ -122,7 +130,9 @@ pub async fn main() -> Result<(), Box<dyn std::error::Error>> {
         buf.clear();
         match handler(&mut buf, &observation_socket_path).await {
             Ok(()) => {
-                tcp_stream.write_all(buf.as_bytes()).await?;
+                if let Err(e) = tcp_stream.write_all(buf.as_bytes()).await {
+                    tracing::warn!("Could not send metrics response: {e}");
+                }
             }
             Err(e) => {
                 log::warn!("error: {e}");
@@ -132,7 +142,9 @@ pub async fn main() -> Result<(), Box<dyn std::error::Error>> {
                     "content-length: 0\r\n\r\n",
                 );
 
-                tcp_stream.write_all(ERROR_REPONSE.as_bytes()).await?;
+                if let Err(e) = tcp_stream.write_all(ERROR_REPONSE.as_bytes()).await {
+                    tracing::warn!("Could not send metrics response: {e}");
+                }
             }
         }
     }
